@@ -31,6 +31,8 @@ pub enum Cap {
     Exact,
     Slack(usize),
     Ample,
+    /// a growable sink: `remaining_mut()` reports usize::MAX and does not shrink as bytes are written
+    Unbounded,
 }
 
 #[derive(Clone, Debug, PartialEq, Eq, Hash)]
@@ -42,6 +44,9 @@ pub enum WriterKind {
     LimitVec,
     /// Chain<&mut [u8], Vec<u8>>: the first `split` bytes of the encoding land in the slice
     ChainSliceVec(usize),
+    /// Chain<Chain<&mut Vec, &mut Vec>, &mut Vec>: three growable buffers, whose saturating
+    /// `remaining_mut()` stays at usize::MAX whatever is written
+    Chain3Vec,
     Sim { chunks: Vec<usize>, cap: Cap },
 }
 
@@ -54,6 +59,8 @@ impl WriterKind {
             WriterKind::SliceSlack(_) => "slice_slack",
             WriterKind::LimitVec => "limit_vec",
             WriterKind::ChainSliceVec(_) => "chain_slice_vec",
+            WriterKind::Chain3Vec => "chain3_growable",
+            WriterKind::Sim { cap: Cap::Unbounded, .. } => "simbuf_unbounded",
             WriterKind::Sim { cap: Cap::Exact, .. } => "simbuf_exact",
             WriterKind::Sim { cap: Cap::Slack(_), .. } => "simbuf_slack",
             WriterKind::Sim { cap: Cap::Ample, .. } => "simbuf_ample",
@@ -249,13 +256,30 @@ fn send_laws<T: Packet + Debug + Clone + PartialEq + Default>(v: &T, kind: &Writ
                 appended.extend_from_slice(&second);
                 Done { res, prior_after: first[..prior.len()].to_vec(), appended, room: None, crossed: if used_first > 0 && !second.is_empty() { 1 } else { 0 }, protocol_error: None }
             }
+            WriterKind::Chain3Vec => {
+                let mut a: Vec<u8> = prior.to_vec();
+                let mut b: Vec<u8> = Vec::new();
+                let mut c: Vec<u8> = Vec::new();
+                let res = {
+                    let mut w = (&mut a).chain_mut(&mut b).chain_mut(&mut c);
+                    v.encode(&mut w)
+                };
+                let mut appended = a.get(prior.len()..).unwrap_or(&[]).to_vec();
+                appended.extend_from_slice(&b);
+                appended.extend_from_slice(&c);
+                Done { res, prior_after: a[..prior.len().min(a.len())].to_vec(), appended, room: None, crossed: 0, protocol_error: None }
+            }
             WriterKind::Sim { chunks, cap } => {
                 let room = match cap {
                     Cap::Exact => n,
                     Cap::Slack(k) => n + k,
                     Cap::Ample => n + 4096 + n / 2,
+                    Cap::Unbounded => 2 * n + 70_000,
                 };
                 let mut w = SimBuf::new(prior, room, chunks);
+                if matches!(cap, Cap::Unbounded) {
+                    w.report_unbounded = true;
+                }
                 let res = v.encode(&mut w);
                 Done {
                     res,
@@ -280,7 +304,7 @@ fn send_laws<T: Packet + Debug + Clone + PartialEq + Default>(v: &T, kind: &Writ
                     match kind {
                         WriterKind::SliceSlack(k) => format!(" + {k} slack"),
                         WriterKind::Sim { cap: Cap::Slack(k), .. } => format!(" + {k} slack"),
-                        WriterKind::Sim { cap: Cap::Ample, .. } | WriterKind::Vec | WriterKind::BytesMut | WriterKind::ChainSliceVec(_) => " and more".into(),
+                        WriterKind::Sim { cap: Cap::Ample | Cap::Unbounded, .. } | WriterKind::Vec | WriterKind::BytesMut | WriterKind::ChainSliceVec(_) | WriterKind::Chain3Vec => " and more".into(),
                         _ => String::new(),
                     },
                     panic_msg(e),
